@@ -470,4 +470,65 @@ example : VersionWF ⟨70015, 0, 1700000000, 0, [127, 0, 0, 1], 8333, 0, [10, 0,
     [1, 2, 3, 4, 5, 6, 7, 8], [0x2f, 0x62, 0x2f], 800000, true⟩ := by
   unfold VersionWF; simp
 
+/-! ## unique decodability (corollaries of the round trips) -/
+
+/-- compact-size encoding is prefix-free / uniquely decodable -/
+theorem varint_prefix_free (n m : Nat) (e₁ e₂ r₁ r₂ : Bytes)
+    (h₁ : encodeVarint n = some e₁) (h₂ : encodeVarint m = some e₂) (h : e₁ ++ r₁ = e₂ ++ r₂) :
+    n = m ∧ e₁ = e₂ ∧ r₁ = r₂ := by
+  have a := varint_roundtrip n e₁ r₁ h₁
+  have b := varint_roundtrip m e₂ r₂ h₂
+  rw [h, b] at a
+  simp only [Option.some.injEq, Prod.mk.injEq] at a
+  obtain ⟨hn, hr⟩ := a
+  subst hn; subst hr
+  refine ⟨rfl, ?_, rfl⟩
+  rw [h₁] at h₂; exact Option.some.inj h₂
+
+theorem varint_injective (n m : Nat) (e : Bytes)
+    (h₁ : encodeVarint n = some e) (h₂ : encodeVarint m = some e) : n = m :=
+  (varint_prefix_free n m e e [] [] h₁ h₂ rfl).1
+
+theorem varstr_prefix_free (a b e₁ e₂ r₁ r₂ : Bytes) (ha : a.length < 2 ^ 63) (hb : b.length < 2 ^ 63)
+    (h₁ : encodeVarstr a = some e₁) (h₂ : encodeVarstr b = some e₂) (h : e₁ ++ r₁ = e₂ ++ r₂) :
+    a = b ∧ r₁ = r₂ := by
+  have x := varstr_roundtrip a e₁ r₁ ha h₁
+  have y := varstr_roundtrip b e₂ r₂ hb h₂
+  rw [h, y] at x
+  simp only [Option.some.injEq, Prod.mk.injEq] at x
+  exact ⟨x.1.symm, x.2.symm⟩
+
+theorem le_injective (n m w : Nat) (b : Bytes) (h₁ : natToLE n w = some b) (h₂ : natToLE m w = some b) :
+    n = m := by
+  rw [← (le_roundtrip n w b h₁).2, ← (le_roundtrip m w b h₂).2]
+
+theorem be_injective (n m w : Nat) (b : Bytes) (h₁ : natToBE n w = some b) (h₂ : natToBE m w = some b) :
+    n = m := by
+  rw [← (be_roundtrip n w b h₁).2, ← (be_roundtrip m w b h₂).2]
+
+/-- two well-formed envelopes with the same wire bytes (followed by anything) are the same envelope -/
+theorem envelope_prefix_free (hash256 : Bytes → Bytes) (hh : ∀ b, 4 ≤ (hash256 b).length)
+    (net : String) (e₁ e₂ : Envelope) (s₁ s₂ r₁ r₂ : Bytes)
+    (hm₁ : magicOf net = some e₁.magic) (hc₁ : CmdWF e₁.command) (hp₁ : e₁.payload.length < 2 ^ 32)
+    (hm₂ : magicOf net = some e₂.magic) (hc₂ : CmdWF e₂.command) (hp₂ : e₂.payload.length < 2 ^ 32)
+    (h₁ : e₁.serialize hash256 = some s₁) (h₂ : e₂.serialize hash256 = some s₂)
+    (h : s₁ ++ r₁ = s₂ ++ r₂) : e₁ = e₂ ∧ r₁ = r₂ := by
+  obtain ⟨t₁, ht₁, p₁⟩ := envelope_roundtrip hash256 hh net e₁ r₁ hm₁ hc₁ hp₁
+  obtain ⟨t₂, ht₂, p₂⟩ := envelope_roundtrip hash256 hh net e₂ r₂ hm₂ hc₂ hp₂
+  rw [h₁] at ht₁; rw [h₂] at ht₂
+  cases ht₁; cases ht₂
+  rw [h, p₂] at p₁
+  simp only [Option.some.injEq, Prod.mk.injEq] at p₁
+  exact ⟨p₁.1.symm, p₁.2.symm⟩
+
+/-- block headers: serialisation is injective on well-formed headers -/
+theorem header_injective (h₁ h₂ : Header) (s : Bytes) (w₁ : HeaderWF h₁) (w₂ : HeaderWF h₂)
+    (e₁ : h₁.serialize = some s) (e₂ : h₂.serialize = some s) : h₁ = h₂ := by
+  obtain ⟨t₁, ht₁, _, p₁⟩ := header_roundtrip h₁ [] w₁
+  obtain ⟨t₂, ht₂, _, p₂⟩ := header_roundtrip h₂ [] w₂
+  rw [e₁] at ht₁; rw [e₂] at ht₂
+  cases ht₁; cases ht₂
+  rw [p₂] at p₁
+  exact (Prod.mk.inj p₁).1.symm
+
 end Buidl.Props.C19
